@@ -257,7 +257,7 @@ func (e *clientEnd) Read(p []byte) (int, error) {
 	c := e.c
 	c.mu.Lock()
 	defer c.mu.Unlock()
-	for e.rd >= len(c.out) && !c.closed && !c.eof {
+	for e.rd >= len(c.out) && !c.closed { // the client keeps listening after it has shut down its sending side
 		c.cond.Wait()
 	}
 	if e.rd >= len(c.out) {
